@@ -30,6 +30,28 @@ def val_str(v):
 # ('C', quals, name) ('K', v) ('P', v) ('B', op, l, r) ('W', a, b, c) ('U', op, e) ('F', name, args) ('O', tag) ('S',)
 
 
+_CAT = [None]      # catalog of the case being abstracted (for the size of inner plans)
+
+
+class InnerPlanError(Exception):
+    pass
+
+
+def inner_steps(select):
+    """number of steps of the select's OWN plan (`planner.plan_select(select)` on a fresh planner); the inner plan
+    itself is opaque to the model"""
+    from mindsdb_sql.planner.query_planner import QueryPlanner
+    node = copy.deepcopy(select)
+    node.alias = None
+    node.parentheses = False
+    try:
+        p = QueryPlanner(**copy.deepcopy(_CAT[0]))
+        p.plan_select(node)
+        return len(p.plan.steps)
+    except Exception as e:
+        raise InnerPlanError(type(e).__name__)
+
+
 def abs_e(n):
     from mindsdb_sql.parser import ast
     if n is None:
@@ -64,7 +86,7 @@ def abs_e(n):
     if isinstance(n, (ast.Exists, ast.NotExists)):
         return ('F', n.op, tuple(abs_e(a) for a in n.args))
     if isinstance(n, ast.Select):
-        return ('S',)
+        return ('S', inner_steps(n))
     return ('O', type(n).__name__)
 
 
@@ -87,12 +109,12 @@ def show_e(e):
     if k == 'O':
         return 'O ' + enc(e[1])
     if k == 'S':
-        return 'S'
+        return 'S %d' % e[1]
     raise ValueError(e)
 
 
 def count_sel(e):
-    return sum(1 for n, _ in sub_nodes(e) if n[0] == 'S')
+    return sum(n[1] for n, _ in sub_nodes(e) if n[0] == 'S')
 
 
 def sub_nodes(e):
@@ -129,8 +151,9 @@ def top_conjuncts(e):
 
 
 class Operand:
-    def __init__(self, kind, parts, alias, jtype, on, target):
+    def __init__(self, kind, parts, alias, jtype, on, target, inner=1):
         self.kind, self.parts, self.alias, self.jtype, self.on, self.target = kind, parts, alias, jtype, on, target
+        self.inner = inner
 
     def names(self):
         """lower-cased qualifier tuples that denote this operand (specification reading)"""
@@ -156,6 +179,7 @@ class Operand:
         t.append(enc(self.jtype))
         t.append('-' if self.on is None else show_e(self.on))
         t.append('-' if self.target is None else enc(self.target))
+        t.append(str(self.inner))
         return ' '.join(t)
 
 
@@ -206,7 +230,7 @@ def operands_of(query, cat):
             else:
                 ops.append(Operand('tab', list(node.parts), alias, jtype, on, None))
         elif isinstance(node, ast.Select):
-            ops.append(Operand('sub', ['t_sub'], alias, jtype, on, None))
+            ops.append(Operand('sub', ['t_sub'], alias, jtype, on, None, inner_steps(node)))
         else:
             return None
     return ops
@@ -256,10 +280,17 @@ class PlanView:
                 if not q:
                     return default
                 return q.pop(0) if len(q) > 1 else q[0]
-        sub_inputs = set()
-        for s in self.walk(plan.steps):
-            if isinstance(s, S.SubSelectStep) and not s.query.distinct:
-                sub_inputs.add(str(s.dataframe.step_num))
+        sub_inputs = {}      # top-level step number -> sub-select operand (inner plan of that operand)
+        subq = [i for i, o in enumerate(ops) if o.kind == 'sub']
+        for s in plan.steps:
+            if isinstance(s, S.SubSelectStep) and not s.query.distinct and s.table_name is not None and subq \
+                    and isinstance(s.dataframe.step_num, int):
+                cands = [i for i in subq if (ops[i].alias or [''])[-1] == s.table_name]
+                if cands:
+                    i = cands[0]
+                    subq.remove(i)
+                    for n in range(s.dataframe.step_num - ops[i].inner + 1, s.dataframe.step_num + 1):
+                        sub_inputs[n] = i
 
         def ident_key(idn):
             if idn.alias is not None:
@@ -267,11 +298,11 @@ class PlanView:
             return '.'.join(idn.parts).lower()
 
         def conv(s, idx):
+            if idx is not None and idx < n_nested:
+                return dict(kind='nested', k=idx)
+            if idx is not None and idx in sub_inputs:
+                return dict(kind='inner', t=sub_inputs[idx])
             if isinstance(s, S.FetchDataframeStep):
-                if idx is not None and idx < n_nested:
-                    return dict(kind='nested', k=idx)
-                if str(s.step_num) in sub_inputs:
-                    return dict(kind='inner', step=s)
                 t = Keys('tab').get(ident_key(s.query.from_table), -1)
                 return dict(kind='fetch', t=t, w=abs_e(s.query.where) if s.query.where is not None else None, step=s)
             if isinstance(s, S.SubSelectStep):
@@ -301,11 +332,6 @@ class PlanView:
             it['num'] = str(s.step_num)
             self.items.append(it)
         for it in self.items:
-            if it['kind'] == 'inner':
-                # the sub-select operand it belongs to = the SubSelectStep consuming it
-                for jt in self.items:
-                    if jt['kind'] == 'sub' and jt['inp'] == it['num']:
-                        it['t'] = jt['t']
             if it['kind'] == 'mr':
                 for k, sub in enumerate(it['subs']):
                     sub['num'] = '%s_%d' % (it['num'], k)
@@ -403,10 +429,14 @@ def run_real(sql, cat):
     from mindsdb_sql.parser import ast
     if not isinstance(q, ast.Select):
         return dict(skip='not-select')
-    ops = operands_of(q, cat)
-    if ops is None:
-        return dict(skip='shape')
-    where = abs_e(q.where) if q.where is not None else None
+    _CAT[0] = cat
+    try:
+        ops = operands_of(q, cat)
+        if ops is None:
+            return dict(skip='shape')
+        where = abs_e(q.where) if q.where is not None else None
+    except InnerPlanError as e:
+        return dict(skip='inner-plan:' + str(e))
     using = dict(q.using) if q.using is not None else None
     res = dict(ops=ops, where=where, using=using, line=model_line(ops, where, using), sql=sql)
     if not any(o.kind == 'mod' for o in ops):
@@ -458,7 +488,18 @@ class Gen:
             alias = r.choice(['m%d' % i, 'M%d' % i, 'm%d' % i, None])
             cols = MCOLS
         elif kind == 'sub':
-            name = '(select * from %s%s)' % (r.choice(TABLES[:4]), r.choice(['', ' where q = 1', ' where q > 2 and z = 3']))
+            if r.random() < 0.6:
+                name = '(select * from %s%s)' % (r.choice(TABLES[:4]), r.choice(['', ' where q = 1', ' where q > 2 and z = 3']))
+            else:       # sub-selects whose own plan has several steps
+                name = r.choice([
+                    '(select * from int1.t1 a join int2.t2 b on a.id = b.id)',
+                    '(select * from int1.t1 a join int2.t2 b on a.id = b.id where a.q = 1 and b.z > 2)',
+                    '(select * from int1.t1 where tc1 in (select x from int2.t9))',
+                    '(select * from int1.t1 join %s)' % self.names['models'][0],
+                    '(select tc1, id from int2.t2 where q = 1 limit 5)',
+                    '(select * from (select * from int2.tab4 where q = 1) z where z.id > 1)',
+                    '(select * from int1.t1 a join %s pp where pp.mc1 = 1 and a.q = 2)' % self.names['models'][1],
+                ])
             alias = r.choice(['s%d' % i, 'S%d' % i, 's%d' % i, 's%d' % i, None if r.random() < 0.15 else 's%d' % i])
             cols = TCOLS
         else:
@@ -527,7 +568,11 @@ class Gen:
             return '%s = (select max(x) from int2.t9)' % col
         if x < 0.91:
             return '%s in (select x from int1.t9 where z = 1)' % col
-        if x < 0.93:
+        if x < 0.92:        # nested selects whose own plan has several steps
+            return r.choice(['%s = (select max(a.x) from int1.t1 a join int2.t2 b on a.id = b.id)',
+                             '%s in (select x from int1.t9 where y = (select max(z) from int2.t8))',
+                             '%s in (select a.x from int1.t1 a join %s pq)' % ('%s', self.names['models'][0])]) % col
+        if x < 0.935:
             return '%s = ?' % col
         if x < 0.95:
             return 'cast(%s as int) = %s' % (col, self.const())
@@ -656,6 +701,8 @@ SEEDS = [
     "select * from int1.t1 join mindsdb.pred where pred.mc1 = 1 and t1.tc1 = 2 and int1.t1.tc2 = 3 and mindsdb.pred.mc2 = 4 and e = 5",
     "select * from int1.t1 t join mindsdb.pred m join int2.t2 s on s.tc1 = m.mc1 where s.tc2 = 3 and m.mc1 = 1 and m.y = 2",
     "select * from int1.t1 t join mindsdb.pred.3 m where m.mc1 = (select max(x) from int2.t9) and t.tc1 in (select x from int2.t9)",
+    "select * from (select * from int1.t1 a join int2.t2 b on a.id = b.id where a.q = 1) s join mindsdb.pred m where s.tc1 = 1 and m.mc1 = 2 using partition_size=3",
+    "select * from int1.t1 t join (select * from int1.t1 join mindsdb.pred) s on t.id = s.id join proj.pred2 m where t.tc1 in (select a.x from int1.t1 a join int2.t2 b on a.id = b.id) and m.mc1 = (select max(z) from int2.t8)",
     "select * from int1.t1 t join int2.t2 s on t.id = s.id join mindsdb.pred m where t.tc1 between 1 and s.tc2 and s.tc1 between t.tc2 and 5",
     "select * from int1.t1 t join mindsdb.pred m where t.tc1 between 1 and m.mc1 and t.tc2 between m.mc2 and 3 and m.mc1 between 1 and t.tc1",
     "select * from int1.t1 t join mindsdb.pred m where t.tc1 between 1 and tc2 and t.tc2 between t.id + 1 and abs(t.id) and t.id between 1 and 2",
@@ -783,7 +830,7 @@ def number_selects(e, k=None):
     k = k if k is not None else [0]
     t = e[0]
     if t == 'S':
-        k[0] += 1
+        k[0] += e[1]
         return ('P', 'r:%d' % (k[0] - 1))
     if t == 'B':
         l = number_selects(e[2], k)
@@ -1038,6 +1085,6 @@ def oracle(res):
     clash = any(i != j and ops[i].names()[-1] in ops[j].names() for i in range(len(ops)) for j in range(len(ops)))
     if clash:
         for f in fails:
-            if f['cls'] in ATTRIBUTION_CLASSES:
+            if f['cls'] in ATTRIBUTION_CLASSES or f['cls'].startswith('on-filter-outer-join'):
                 f['cls'] = 'alias-clash:' + f['cls']
     return fails
